@@ -112,6 +112,191 @@ def _schedules(ctx, rep, n, nperm, nsalt, pnames=('basic', 'projheavy', 'fleet',
                     break
 
 
+def _variants(tag, nperm, nsalt):
+    v = [('groups:' + '>'.join(o), S.group_policy(o), None) for o in list(itertools.permutations(S.GROUPS))[::5]]
+    v += [('random:%d' % i, S.random_policy('%s/%d' % (tag, i)), None) for i in range(nperm)]
+    v += [('salt:%d' % i, S.random_policy('%s/s%d' % (tag, i)), i + 1) for i in range(nsalt)]
+    return v
+
+
+def _under(pol, salt, body):
+    if salt is None:
+        return body(pol)
+    with S.salted_hashes(salt):
+        return body(pol)
+
+
+def _schedules_other(ctx, rep, n, nperm, nsalt):
+    """The same delivery-order / hash-salt schedules on the worlds of the other services: reactive armor hardener
+    histories (simulator output), restriction worlds (validation data) and statistics worlds (statistics)."""
+    from harness import stats_world as SW
+    from props import c03, c04, c12
+    rnd = ctx.sub_rnd('sched-other')
+
+    def rah_body(h):
+        ops = [op for op in h['ops'] if op['op'] != 'obs']
+
+        def body(pol):
+            im = c12.Impl(h['pen'])
+            if pol is not None:
+                S.install(im.fit, pol)
+            out = {}
+            with c12.rah_log():
+                for k, op in enumerate(ops):
+                    im.apply(op)
+                    if k % 2:
+                        for i in range(len(im.mods)):
+                            out[('mid', k, i)] = [im.mods[i].attrs.get(im.u.res[t]) for t in c12.T] + [
+                                im.mods[i].attrs.get(im.u.misc)]
+                for i in range(len(im.mods)):
+                    out[('rah', i)] = [im.mods[i].attrs.get(im.u.res[t]) for t in c12.T]
+                sh = im.fit.ship
+                out['ship'] = None if sh is None else [sh.attrs.get(im.u.res[t]) for t in c12.T]
+                out['ehp'] = SW._guard(lambda: list(im.fit.stats.get_ehp(None))[:3])
+            return out
+        return body
+
+    def restr_body(useed, hseed):
+        groups = []
+        for _w, _done, step_ops, _errs in c03.run_history(useed, hseed, 16):
+            groups.append(step_ops)
+
+        def body(pol):
+            w = None
+            for w, _done, _ops, _errs in c03.run_history(useed, hseed, 16, ops=groups):
+                if pol is not None and not isinstance(getattr(w.fit, '_FitMsgBroker__subscribers'), S.PermDict):
+                    S.install(w.fit, pol)
+            st = w.fit.stats
+            return {'validate': w.validate(),
+                    'use': [SW._guard(lambda r=r: (r.used, r.output)) for r in (st.cpu, st.powergrid, st.calibration,
+                                                                                 st.dronebay, st.drone_bandwidth)]}
+        return body
+
+    def stats_body(seed):
+        rec = []
+        c04.run_history(seed, C.random.Random('C08-stats/%s' % (seed,)), 22, lambda w, s, ops, op, out: rec.append(op))
+
+        def body(pol):
+            w = SW.World(seed)
+            for op in rec:
+                if pol is not None:
+                    for f in (w.fit, w.fit2):
+                        if not isinstance(getattr(f, '_FitMsgBroker__subscribers'), S.PermDict):
+                            S.install(f, pol)
+                w.apply(op)
+            out = {q: SW.observe(w, q) for q in (('use',), ('slots',), ('hp',), ('resists',), ('wc',), ('ehp', None))}
+            out['validate'] = SW._guard(lambda: _flat_validate(w))
+            return out
+        return body
+    jobs = []
+    # designed: two hardeners of different groups, results stored, then one implant whose single change message names
+    # both - a relevant change (shift amount) for one and an irrelevant one for the other
+    ok = {'v': [0.85, 0.85, 0.85, 0.85], 'shift': 6, 'cyc': 10000, 'state': 3}
+    for first in (901, 902):
+        designed = {'pen': False, 'ops': [
+            {'op': 'ship', 'v': [0.5, 0.65, 0.75, 0.9]}, dict(ok, op='add', g=first),
+            dict(ok, op='add', g=901 + 902 - first), {'op': 'defp', 'p': [25, 25, 25, 25]},
+            {'op': 'imp', 'k': 'ship:em', 'v': 0.875}, {'op': 'imp', 'k': 'ship:em', 'v': None},
+            {'op': 'imp', 'k': 'g1shift+g2misc', 'v': 2.0}]}
+        jobs.append(('rah-designed', first, rah_body(designed)))
+    for k in range(n):
+        jobs.append(('rah', k, rah_body(c12.gen_history(rnd))))
+        jobs.append(('restr', k, restr_body(rnd.randrange(10 ** 9), k)))
+        jobs.append(('stats', k, stats_body('sched/%d' % rnd.randrange(10 ** 9))))
+    for kind, k, body in jobs:
+        try:
+            ref = body(None)
+            again = body(None)
+        except Exception as e:
+            raise C.InfraError('baseline %s run failed: %s %s' % (kind, type(e).__name__, e))
+        if not W.flat_equal(_flat(ref), _flat(again)):
+            rep.violate('running the same %s program twice differs' % kind, {'world': kind, 'k': k})
+            continue
+        for name, pol, salt in _variants('%s/%d' % (kind, k), nperm, nsalt):
+            got = _under(pol, salt, body)
+            rep.case(sig=(kind, k, name), kind='schedule-%s-%s' % (kind, name.split(':')[0]))
+            bad = [key for key in ref if not W.flat_equal(_flat(ref[key]), _flat(got.get(key)))]
+            if bad:
+                rep.violate('%s world: observation depends on delivery/hash order (%s): %r' % (
+                    kind, name, [(key, ref[key], got.get(key)) for key in bad[:2]]),
+                    {'world': kind, 'k': k, 'schedule': name, 'seed': ctx.seed})
+                break
+
+
+def _designed_resources(rep):
+    """Designed resource worlds under every order of the subscriber groups and several hash salts: (a) three cpu users
+    whose decimal sum equals the ship's output exactly (summation order must not flip the verdict); (b) a module whose
+    type has cpu 0 and gets its use from its own modifier that starts in the same message as `online` (a register must
+    not look at calculated values while the message is being delivered)."""
+    from eos import Fit, ModuleHigh, Ship, SolarSystem, State
+    from eos.const.eos import ModAffecteeFilter, ModAggregateMode, ModDomain, ModOperator
+    from eos.const.eve import AttrId, EffectCategoryId, EffectId
+    from eos.eve_obj.modifier import DogmaModifier
+    from eos.restriction.exception import ValidationError
+    from harness import mem
+    ch = mem.MemCache()
+    for a in (AttrId.cpu, AttrId.cpu_output):
+        ch.mkattr(attr_id=a, stackable=True)
+    b = ch.mkattr(stackable=True)
+    online = ch.mkeffect(effect_id=EffectId.online, category_id=EffectCategoryId.online)
+    own = ch.mkeffect(category_id=EffectCategoryId.online, modifiers=(DogmaModifier(
+        affectee_filter=ModAffecteeFilter.item, affectee_domain=ModDomain.self, affectee_attr_id=AttrId.cpu,
+        operator=ModOperator.mod_add, aggregate_mode=ModAggregateMode.stack, affector_attr_id=b.id),))
+    ship_t = ch.mktype(attrs={AttrId.cpu_output: 57.4})
+    users = [ch.mktype(attrs={AttrId.cpu: v}, effects=[online]) for v in (30.3, 20.9, 6.2)]
+    zero_t = ch.mktype(attrs={AttrId.cpu: 0, b.id: 15}, effects=[online, own])
+    small_ship = ch.mktype(attrs={AttrId.cpu_output: 10})
+
+    def world(kind):
+        def body(pol):
+            fit = Fit(solar_system=SolarSystem(source=mem.source(ch)))
+            if pol is not None:
+                S.install(fit, pol)
+            fit.ship = Ship((ship_t if kind == 'sum' else small_ship).id)
+            mods = [ModuleHigh(t.id, state=State.offline) for t in (users if kind == 'sum' else [zero_t])]
+            for m in mods:
+                fit.modules.high.append(m)
+            for m in mods:
+                m.state = State.online
+            try:
+                fit.validate()
+                verdict = 'pass'
+            except ValidationError as e:
+                verdict = sorted(sorted(int(r) for r in d) for d in e.data.values())
+            return {'used': fit.stats.cpu.used, 'output': fit.stats.cpu.output, 'validate': verdict}
+        return body
+    for kind in ('sum', 'own-modifier'):
+        body = world(kind)
+        ref = body(None)
+        variants = [('groups:' + '>'.join(o), S.group_policy(o), None) for o in itertools.permutations(S.GROUPS)]
+        variants += [('salt:%d' % i, S.random_policy('res/%s/%d' % (kind, i)), i + 1) for i in range(12)]
+        for name, pol, salt in variants:
+            got = _under(pol, salt, body)
+            rep.case(sig=('designed-resource', kind, name), kind='schedule-designed-resource')
+            if not W.flat_equal(_flat(ref), _flat(got)):
+                rep.violate('designed resource world (%s): observation depends on delivery/hash order (%s): %r vs %r'
+                            % (kind, name, ref, got), {'designed': kind, 'schedule': name})
+                break
+
+
+def _flat_validate(w):
+    from eos.restriction.exception import ValidationError
+    try:
+        w.fit.validate()
+        return 'pass'
+    except ValidationError as e:
+        return sorted((w.any_id(i), sorted(int(r) for r in d)) for i, d in e.data.items())
+
+
+def _flat(x):
+    if isinstance(x, dict):
+        return tuple((repr(k), _flat(v)) for k, v in sorted(x.items(), key=lambda kv: repr(kv[0])))
+    if isinstance(x, (list, tuple, set, frozenset)):
+        seq = sorted(x, key=repr) if isinstance(x, (set, frozenset)) else x
+        return tuple(_flat(v) for v in seq)
+    return x
+
+
 def correspondence(ctx):
     rep = ctx.report
     rep.rules.append(RULE)
@@ -146,6 +331,8 @@ def _gather_orders(ctx, rep, n):
 def oracle(ctx):
     _schedules(ctx, ctx.report, ctx.n(6, 120), ctx.n(6, 20), ctx.n(6, 32))
     _gather_orders(ctx, ctx.report, ctx.n(1500, 30000))
+    _schedules_other(ctx, ctx.report, ctx.n(6, 80), ctx.n(2, 6), ctx.n(3, 10))
+    _designed_resources(ctx.report)
     ctx.report.dist['deliveries_with_imposed_order'] = S.CALLS['get']
     ctx.report.dist['salted_hash_calls'] = S.CALLS['hash']
     if S.CALLS['get'] == 0 or S.CALLS['hash'] == 0:
@@ -157,4 +344,19 @@ def search(ctx, broken):
 
 
 def replay(path):
-    return F.generic_replay(PID, path)
+    import json
+    data = json.load(open(C.VERIF / path if not str(path).startswith('/') else path))
+    case = (data.get('violation') or {}).get('case') or {}
+    if 'ops' in case and 'world_seed' in case:
+        return F.generic_replay(PID, path)
+    # designed worlds and the hardener / restriction / statistics schedules are functions of the run's seed
+    ctx = C.Ctx(PID, data.get('tier', 'quick'), data.get('seed', 0))
+    if 'designed' in case:
+        _designed_resources(ctx.report)
+    elif 'a' in case and 'b' in case:
+        _gather_orders(ctx, ctx.report, ctx.n(1500, 30000))
+    else:
+        _schedules_other(ctx, ctx.report, ctx.n(6, 80), ctx.n(2, 6), ctx.n(3, 10))
+    for x in ctx.report.violations[:3]:
+        print('REPRODUCED:', x['what'][:400])
+    return 1 if ctx.report.violations else 0
